@@ -385,6 +385,28 @@ func Mutators() []Mutator {
 		a.Attestation1.AttestingIndices = append([]uint64{x[0]}, x...)
 		return true
 	})
+	asMut("indices-duplicate-at-the-end", func(m *MutCtx, a *refspec.AttesterSlashing) bool {
+		x := a.Attestation1.AttestingIndices
+		if len(x) == 0 {
+			return false
+		}
+		a.Attestation1.AttestingIndices = append(append([]uint64{}, x...), x[len(x)-1])
+		// signed by every listed index (the duplicate signs twice): only the uniqueness rule can refuse it
+		a.Attestation1.Signature = m.W.signAtt(m.Pre, &a.Attestation1.Data, a.Attestation1.AttestingIndices)
+		return true
+	})
+	asMut("indices-duplicate-in-the-middle", func(m *MutCtx, a *refspec.AttesterSlashing) bool {
+		x := a.Attestation1.AttestingIndices
+		if len(x) < 3 {
+			return false
+		}
+		y := append([]uint64{}, x[:2]...)
+		y = append(y, x[1])
+		y = append(y, x[2:]...)
+		a.Attestation1.AttestingIndices = y
+		a.Attestation1.Signature = m.W.signAtt(m.Pre, &a.Attestation1.Data, y)
+		return true
+	})
 	asMut("indices-empty", func(m *MutCtx, a *refspec.AttesterSlashing) bool { a.Attestation1.AttestingIndices = nil; return true })
 	asMut("index-out-of-range", func(m *MutCtx, a *refspec.AttesterSlashing) bool {
 		a.Attestation1.AttestingIndices = append(append([]uint64{}, a.Attestation1.AttestingIndices...), uint64(len(m.Pre.Validators)))
